@@ -75,16 +75,23 @@ func VerifH01b() {
 
 	validatorCalls := 0
 	var seenDB, seenUser, seenPw []byte
+	// a validator that does not accept may hand back the context it was given or
+	// no context at all (nil): both are ordinary ways to write "no"
+	nilCtx := outcome != 0 && nondetBool()
 	validate := func(ctx context.Context, database, username, password string) (context.Context, bool, error) {
 		validatorCalls++
 		seenDB, seenUser, seenPw = []byte(database), []byte(username), []byte(password)
+		back := ctx
+		if nilCtx {
+			back = nil
+		}
 		switch outcome {
 		case 0:
 			return ctx, true, nil
 		case 1:
-			return ctx, false, nil
+			return back, false, nil
 		default:
-			return ctx, false, errors.New("validator failed")
+			return back, false, errors.New("validator failed")
 		}
 	}
 	middleware := 0
@@ -153,6 +160,9 @@ func VerifH01b() {
 	if !wellFormed {
 		vReach("malformed-password-message")
 	}
+	if wellFormed && nilCtx {
+		vReach("rejecting-validator-returns-nil-context")
+	}
 	if wellFormed && outcome == 2 {
 		vReach("validator-failed")
 	}
@@ -176,6 +186,12 @@ func VerifH12a() {
 		vAssume(vNoNUL(val))
 		area = vCat(vCStr([]byte(key)), vCStr(val), area)
 		vReach("well-known-key")
+	}
+	// MANY > 0: the area starts with MANY distinct concrete pairs (k00=v, k01=v,
+	// ...): any cap on the number of startup parameters below MANY is crossed
+	many := vParam("MANY", 0)
+	for m := many - 1; m >= 0; m-- {
+		area = vCat(vCStr([]byte{'k', byte('0' + m/10%10), byte('0' + m%10), byte('a' + m/100)}), vCStr([]byte("v")), area)
 	}
 	// reference parse of the parameter area
 	type kv struct{ k, v []byte }
@@ -225,7 +241,7 @@ func VerifH12a() {
 	}
 	globalLen := len(global)
 	withVersion := nondetBool()
-	opts := []OptionFn{MessageBufferSize(64), GlobalParameters(global)}
+	opts := []OptionFn{MessageBufferSize(64 + 8*many), GlobalParameters(global)}
 	if withVersion {
 		opts = append(opts, Version("15.1"))
 	}
@@ -236,7 +252,7 @@ func VerifH12a() {
 		return ctx, nil
 	}))
 	w := &vWorld{parseMenu: 2, execMenu: 2}
-	srv, err := NewServer(w.parse, opts...)
+	srv, err := vServerCfg(w.parse, opts...)
 	vAssert("newserver-ok", err == nil)
 	conn := vNewConn(vStartup(area))
 	srv.serve(context.Background(), conn) //nolint
@@ -340,6 +356,9 @@ func VerifH12a() {
 	vAssert("server-parameters-visible", len(serverSeen) == builtin+globalLen)
 	if _, has := lookup("user"); has {
 		vReach("user-given")
+	}
+	if many > 0 {
+		vReach("many-startup-parameters")
 	}
 }
 
@@ -459,7 +478,7 @@ func VerifH19() {
 		opts = append(opts, Statements(func() StatementCache { return &vStmtCache{m: map[string]*Statement{}} }),
 			Portals(func() PortalCache { return &vPortalCache{m: map[string]*Portal{}} }))
 	}
-	srv, err := NewServer(w.parse, opts...)
+	srv, err := vServerCfg(w.parse, opts...)
 	vAssert("newserver-ok", err == nil)
 
 	input := vStartup(vKV([]byte("user"), []byte("u")))
@@ -697,5 +716,69 @@ func VerifH19e() {
 		vReach("custom-caches")
 	} else {
 		vReach("default-caches")
+	}
+}
+
+// ---------------------------------------------------------------------------
+// H19c — a connection's context stays its own (C19, C12): two connections of
+// different users are served by one server (configured parameter map nil /
+// empty / one entry; with or without a version); each connection's parser
+// keeps the context it was called with. After BOTH have been served, the
+// first connection's context still carries its own client parameters, its own
+// server parameters (session_authorization = its user), its own remote
+// address and its own type map.
+// ---------------------------------------------------------------------------
+func VerifH19c() {
+	u1, u2 := vSymText(1), vSymText(1)
+	var global Parameters
+	gkind := vChoose(3)
+	switch gkind {
+	case 1:
+		global = Parameters{}
+	case 2:
+		global = Parameters{"app": "v"}
+	}
+	opts := []OptionFn{MessageBufferSize(64), GlobalParameters(global)}
+	if nondetBool() {
+		opts = append(opts, Version("15"))
+	}
+	var kept [2]context.Context
+	parse := func(ctx context.Context, query string) (PreparedStatements, error) {
+		kept[RemoteAddress(ctx).(vAddr).id] = ctx
+		fn := func(ctx context.Context, dw DataWriter, params []Parameter) error { return dw.Complete("T") }
+		return Prepared(NewStatement(fn)), nil
+	}
+	srv, err := vServerCfg(parse, opts...)
+	vAssert("newserver-ok", err == nil)
+	traffic := func(u []byte) []byte {
+		return vCat(vStartup(vKV([]byte("user"), u)), vMsgBytes('Q', vCStr([]byte("q"))), vMsgBytes('X', nil))
+	}
+	c1, c2 := vNewConn(traffic(u1)), vNewConn(traffic(u2))
+	c2.id = 1
+	srv.serve(context.Background(), c1) //nolint
+	srv.serve(context.Background(), c2) //nolint
+	vAssert("both-parsers-ran", kept[0] != nil && kept[1] != nil)
+	if kept[0] == nil || kept[1] == nil {
+		return
+	}
+	check := func(label string, ctx context.Context, u []byte, id int) {
+		vAssert(label+"-client-parameters-own", vEqStr(ClientParameters(ctx)[ParamUsername], string(u)))
+		vAssert(label+"-server-parameters-own", vEqStr(ServerParameters(ctx)[ParamSessionAuthorization], string(u)))
+		vAssert(label+"-remote-address-own", RemoteAddress(ctx).(vAddr).id == id)
+		vAssert(label+"-type-map-present", TypeMap(ctx) != nil)
+	}
+	check("first", kept[0], u1, 0)
+	check("second", kept[1], u2, 1)
+	vAssert("type-maps-are-per-connection", TypeMap(kept[0]) != TypeMap(kept[1]))
+	vAssert("server-parameter-maps-are-per-connection", len(ServerParameters(kept[0])) == len(ServerParameters(kept[1])))
+	if gkind == 2 {
+		vAssert("configured-map-untouched", len(global) == 1 && global["app"] == "v")
+		vReach("configured-map-with-an-entry")
+	}
+	if gkind == 1 {
+		vAssert("configured-empty-map-untouched", len(global) == 0)
+	}
+	if !vEqBytes(u1, u2) {
+		vReach("different-users")
 	}
 }
